@@ -203,4 +203,29 @@ _EXTRA3 = {
 for _k, _v in _EXTRA3.items():
     CHECKS[_k]["text"] = CHECKS[_k]["text"].rstrip() + " " + _v
 
+_EXTRA4 = {
+    "C01": "Also (round 5): rails that reject with None (a falsy result that is not False) after an earlier truthy result, the input rails selected by a list of names, rail bodies that assign everyday variable names (`$i`, `$n`, ...).",
+    "C02": "Also (round 5): Colang 2.x rails listed in config.yml (every pair of input / output lists over three rails, the same rail on both sides); the shipped self-check rails with their REAL actions over message lengths around the check prompt's length limit and marker positions (a returned message was wholly contained in the prompt that approved it).",
+    "C03": "Also (round 5): actions served by an actions server (in-process stand-in for aiohttp.ClientSession bound to a real loopback server by a conformance run; answers 200 failed / null / 500 / html / bad json / connect error / timeout at every action site, 1.0 and 2.x runtime); the shipped Colang 2.x library rails (llama guard, content safety, sensitive data, activefence, autoalign, patronus, jailbreak, self check) with stub actions and faults at every site.",
+    "C04": "Also (round 5): bare action event statements naming the instance by the written parameter action_uid, flow parameters written by position in statements on flow events, action references made from `<Parameter>Updated` events of external actions.",
+    "C05": "Also (round 5): where a competitor's interaction loop comes from (own decorator, `@override` with / without `@loop` in four source arrangements, wrapper parent), competitors with a history before the contested match (or/and groups, awaits, when).",
+    "C06": "Also (round 5): T10 activated flows with the `start_new_flow_instance:` label at 8 positions, T11 `deactivate` by one of several activators, T12 an action whose scope closes in the step that started it (feed-back mode), T13 main ending with children / actions running.",
+    "C07": "Also (round 5): the group statement inside the body of a `when` case with a two-alternative condition (a body that is expanded once per alternative).",
+    "C08": "Also (round 5): `@override` flows whose signature differs from the overridden one (4 placements), `global` declarations at three slots of two sibling instances / the caller / a helper against a reference interpreter, callees as members of groups.",
+    "C09": "Also (round 5): an exception escaping run_to_completion in any host exploration is a violation (event-processing-raised), also on the states C11's cuts reach.",
+    "C10": "Also (round 5): error texts with special characters while error-reporting library flows are active (termination), parameter defaults that raise on activated flows, internal events sent with missing / ill-typed arguments, verbose logging of error texts that read like console markup.",
+    "C11": "Also (round 5): requests naming an ended flow with a watcher on UnhandledEvent, group scopes whose member finishes long before the formula, attribute-style dicts kept in variables; local async actions through the non-blocking process_events API with save/restore at every call boundary (c11_async).",
+    "C12": "Also (round 5): every 1.0 flow as LOADED by the runtime (FlowConfig elements, also through a start_flow event), declarations (`priority`, `meta`) at every position of the 1.0 control grammar.",
+    "C13": "Also (round 5): part H - every history of <= 2 earlier files (failing in 7 contexts x 7 ways, or valid) parsed in the same process before valid probe files; single-statement files under every meaningless layout.",
+    "C14": "Also (round 5): expressions that begin and end with string literals in if / while / set and over action-result fields (oracle: Python's value of the same text), conversations continued through the `state` and the `messages` API of the real LLMRails (group api).",
+    "C15": "Also (round 5): conversations that define a flow under one id in their histories, a conversation whose history outgrows the prompt length limit next to short ones.",
+    "C16": "Also (round 5): 34 text shapes (leading `$`, names of context variables, blank, literals of the language) at every position of a rails-only call; two overlapping rails-only calls on one instance on the virtual loop (each call's log lists its own rails).",
+    "C17": "Also (round 5): the well-formed reference turn asked again on the instance that served every hostile turn.",
+    "C18": "Also (round 5): the single-call hand-over (buffered head + body) under every chunking with the operations generation.py performs recorded from a real request, single streaming requests through LLMRails on realistic texts, two overlapping streaming requests on one LLMRails.",
+    "C19": "Also (round 5): two indexes in one process whose engine / model names collide under 15 key derivations, an event loop abandoned while a batch is being collected followed by requests on a fresh loop.",
+    "C20": "Also (round 5): part D - threads served by a REAL LLMRails under the endpoint (context, per-request options), stored thread compared exactly.",
+}
+for _k, _v in _EXTRA4.items():
+    CHECKS[_k]["text"] = CHECKS[_k]["text"].rstrip() + " " + _v
+
 NOT_APPLICABLE = {}
